@@ -1,7 +1,6 @@
 package sym
 
 import (
-	"sync"
 	"bufio"
 	"fmt"
 	"io"
@@ -9,6 +8,7 @@ import (
 	"os/exec"
 	"strconv"
 	"strings"
+	"sync"
 	"time"
 )
 
